@@ -51,6 +51,17 @@ func httpFile(kind string, e int) (string, []byte) {
 			fmt.Fprintf(&b, "3 /p%d?vid=%d tag%d\nabc\n", i, i, i)
 		}
 		return "uripost", []byte(b.String())
+	case "uripost-nobody-nonl":
+		// entries without a body, and no newline behind the last one
+		for i := 0; i < e; i++ {
+			fmt.Fprintf(&b, "0 /p%d?vid=%d tag%d\n", i, i, i)
+		}
+		return "uripost", []byte(strings.TrimSuffix(b.String(), "\n"))
+	case "uri-nonl":
+		for i := 0; i < e; i++ {
+			fmt.Fprintf(&b, "/p%d?vid=%d tag%d\n", i, i, i)
+		}
+		return "uri", []byte(strings.TrimSuffix(b.String(), "\n"))
 	case "raw":
 		for i := 0; i < e; i++ {
 			blk := fmt.Sprintf("GET /p%d?vid=%d HTTP/1.1\r\nHost: h.example.org\r\n\r\n", i, i)
@@ -134,7 +145,7 @@ func buildProvider(c Cell) (core.Provider, string, error) {
 	var conf map[string]any
 	var path string
 	switch c.Kind {
-	case "uri", "uripost", "raw", "jsonline-lines", "jsonline-array", "raw-bigbody", "uripost-bigbody", "jsonline-bigline",
+	case "uri", "uripost", "raw", "jsonline-lines", "jsonline-array", "raw-bigbody", "uripost-bigbody", "jsonline-bigline", "uripost-nobody-nonl", "uri-nonl",
 		"uri+chosen-empty", "uripost+chosen-empty", "raw+chosen-all", "jsonline-lines+chosen-all", "jsonline-array+chosen-empty":
 		typ, data := httpFile(strings.Split(c.Kind, "+")[0], c.Entries)
 		path = vkit.WriteMem(data)
@@ -531,13 +542,13 @@ func runEngine(res *vkit.Result, c Cell, p core.Provider, exp int, watchdog time
 	return ""
 }
 
-var kinds = []string{"uri", "uripost", "raw", "jsonline-lines", "jsonline-array", "grpc/json", "http/scenario", "grpc/scenario", "json", "json-inline", "json-padded", "json-queue2", "raw-bigbody", "uripost-bigbody", "grpc/json-bigline", "jsonline-bigline",
+var kinds = []string{"uri", "uripost", "raw", "jsonline-lines", "jsonline-array", "grpc/json", "http/scenario", "grpc/scenario", "json", "json-inline", "json-padded", "json-queue2", "raw-bigbody", "uripost-bigbody", "grpc/json-bigline", "jsonline-bigline", "uripost-nobody-nonl", "uri-nonl",
 	"uri+chosen-empty", "uripost+chosen-empty", "raw+chosen-all", "jsonline-lines+chosen-all", "jsonline-array+chosen-empty"}
 
 func cells(kind string) []Cell {
 	var out []Cell
 	preloads := []bool{false}
-	if kind == "uri" || kind == "uripost" || kind == "raw" || strings.HasPrefix(kind, "jsonline") || strings.HasSuffix(kind, "-bigbody") || strings.Contains(kind, "+chosen-") {
+	if kind == "uri" || kind == "uripost" || kind == "raw" || strings.HasPrefix(kind, "jsonline") || strings.HasSuffix(kind, "-bigbody") || strings.HasSuffix(kind, "-nonl") || strings.Contains(kind, "+chosen-") {
 		preloads = []bool{false, true}
 	}
 	consumers := []int{1, 3}
